@@ -1,11 +1,11 @@
 import Pandora.Drv.Util
-import Pandora.Model.C14
+import Pandora.Model.C14Hdr
 import Pandora.Spec.C14
 
 namespace Pandora.Drv.C14
 open Pandora.Drv
 open Pandora.Model.C08 hiding fullScan httpRun runFuel run
-open Pandora.Model.C14
+open Pandora.Model.C14 Pandora.Model.C14H
 
 def parseFmt : String → Option Fmt
   | "uri" => some .uri | "uripost" => some .uripost | "raw" => some .raw
@@ -15,10 +15,12 @@ def parseFmt : String → Option Fmt
 def parseRun (s : String) : Spec.C14.RunClass :=
   match s with
   | "nil" => .nil | "canceled" => .canceled | "limit" => .limit | "passes" => .passes
-  | "noammo" => .noammo | "noreturn" => .noreturn | "construct" => .construct | _ => .other
+  | "noammo" => .noammo | "noreturn" => .noreturn | "construct" => .construct
+  | _ => if s.startsWith "fatal" then .fatal else .other
 
 def parseEnd : String → Option Spec.C14.EndClass
   | "closed" => some .closed | "blocked" => some .blocked | "spinning" => some .spinning | "norun" => some .norun
+  | "crashed" => some .crashed
   | _ => none
 
 def classOf : RunRes → Spec.C14.RunClass
@@ -32,10 +34,45 @@ structure Line where
   b : Bounds
   cap : Nat
   cell : Spec.C14.Cell
+  src : Source            -- the same source with its header declarations (`fh=`, `ch=`)
+  hdrInModel : Bool       -- the header declarations are of the kind the model reads
 
 /-- a tag / chosencases token of the input line: `_` = the empty tag, `~` = a space -/
 def untok (s : String) : String :=
   if s == "_" then "" else s.map fun c => if c == '~' then ' ' else c
+
+/-- `fh=0:X-A:1;2:x-a:2` -/
+def parseFH (s : String) : Option (List (Nat × String × String)) :=
+  if s.isEmpty || s == "-" then some [] else
+  (s.splitOn ";").mapM fun p =>
+    match p.splitOn ":" with
+    | pos :: k :: v :: rest => pos.toNat?.map fun n => (n, k, String.intercalate ":" (v :: rest))
+    | _ => none
+
+/-- `ch=X-C:c1;Host:cfg.example` -/
+def parseCH (s : String) : Option (List (String × String)) :=
+  if s.isEmpty || s == "-" then some [] else
+  (s.splitOn ";").mapM fun p =>
+    match p.splitOn ":" with
+    | k :: v :: rest => some (k, String.intercalate ":" (v :: rest))
+    | _ => none
+
+def mkSource (tags : List String) (fh : List (Nat × String × String)) (ch : List (String × String)) : Source :=
+  { tags, ch, blocks := (List.range (tags.length + 1)).map fun i => (fh.filter (·.1 == i)).map (·.2) }
+
+def valOk (v : String) : Bool := !v.isEmpty && v.toList.all fun c => c.isAlphanum || c == '.' || c == '-'
+
+def noDupKeys : List (String × String) → Bool
+  | [] => true
+  | kv :: rest => !(rest.any fun q => canon q.1 == canon kv.1) && noDupKeys rest
+
+/-- what the model reads: keys of letters / digits / `-`, plain values, positions inside the source (uri / uripost:
+also after the last entry), per-entry formats declare a header at most once per entry and no Host -/
+def hdrModelled (k : Fmt) (n : Nat) (fh : List (Nat × String × String)) (ch : List (String × String)) : Bool :=
+  let perEntry := !(k == .uri || k == .uripost)
+  fh.all (fun h => keyOk h.2.1 && valOk h.2.2 && (if perEntry then decide (h.1 < n) && canon h.2.1 != "Host" else decide (h.1 ≤ n)))
+    && ch.all (fun h => keyOk h.1 && valOk h.2)
+    && (!perEntry || (List.range n).all fun i => noDupKeys ((fh.filter (·.1 == i)).map (·.2)))
 
 def parseLine (kv : List (String × String)) : Option Line := do
   let kind ← parseFmt (getS kv "fmt")
@@ -46,7 +83,10 @@ def parseLine (kv : List (String × String)) : Option Line := do
   let tags := if ts == "-" then [] else (splitList ts).map untok
   let cs := getS kv "cases"
   let cases := if cs == "-" then [] else (splitList cs).map untok
-  pure { kind, tags, cases, b := ⟨limit, passes⟩, cap, cell := { tags, cases, limit, passes, cap } }
+  let fh ← parseFH (getS kv "fh")
+  let ch ← parseCH (getS kv "ch")
+  pure { kind, tags, cases, b := ⟨limit, passes⟩, cap, cell := { tags, cases, limit, passes, cap },
+         src := mkSource tags fh ch, hdrInModel := hdrModelled kind tags.length fh ch }
 
 /-- what the harness would observe on one side of the model (`cap` = the acquisition count at which it cancels) -/
 def sideOf (cap : Nat) : Option (Outcome Entry) → Spec.C14.Side
@@ -75,8 +115,17 @@ def showSide (p : String) (x : Spec.C14.Side) (implEnd : String) : String :=
   let e := if x.run == .noreturn then implEnd else x.end_.name
   s!"{p}.seq={showSeq x.seq} {p}.cut={if x.cut then 1 else 0} {p}.run={x.run.name} {p}.end={e}"
 
+/-- the canonical Host/headers text of a request of each entry -/
+def ehdrOf (k : Fmt) (src : Source) : List String := (List.range src.tags.length).map (reqText k src)
+
+/-- the model's observation of a cell with its requests -/
+def modelObsHOf (k : Fmt) (src : Source) (cases : List String) (b : Bounds) (cap : Nat) : Spec.C14.ObsH :=
+  let o := modelObsOf k src.tags cases b cap
+  { base := o, reqOk := true, shd := Spec.C14.renderHd (ehdrOf k src) o.s.seq, phd := Spec.C14.renderHd (ehdrOf k src) o.p.seq }
+
 def modelObs (l : Line) (ikv : List (String × String)) : String :=
-  s!"{showSide "s" (modelSide l false) (getS ikv "s.end" "spinning")} {showSide "p" (modelSide l true) (getS ikv "p.end" "spinning")} tagsok=1"
+  let o := modelObsHOf l.kind l.src l.cases l.b l.cap
+  s!"{showSide "s" o.base.s (getS ikv "s.end" "spinning")} {showSide "p" o.base.p (getS ikv "p.end" "spinning")} tagsok=1 reqok=1 s.hd={o.shd} p.hd={o.phd}"
 
 def parseSeq (s : String) : Option (List Nat) := if s == "-" then some [] else parseNats s
 
@@ -94,9 +143,12 @@ def handle : Handler := fun input impl =>
     if l.cap == 0 then ("-", "skip:no-cap") else
     if l.tags.isEmpty && getS (parseKV input) "src" == "uris" then ("-", "skip:empty-uris-list-is-no-source") else
     if !Spec.C14.noMatch l.cell && Spec.C14.inconclusive l.cell then ("-", "skip:cap-equals-count") else
+    if !l.hdrInModel then ("-", "skip:header-declarations-outside-the-model") else
     match parseSide ikv "s", parseSide ikv "p" with
     | some s, some p =>
-      (modelObs l ikv, Spec.C14.judge l.cell { s, p, tagsOk := getS ikv "tagsok" == "1" })
+      (modelObs l ikv, Spec.C14.judgeH l.cell (ehdrOf l.kind l.src)
+        { base := { s, p, tagsOk := getS ikv "tagsok" == "1" }, reqOk := getS ikv "reqok" == "1",
+          shd := getS ikv "s.hd" "-", phd := getS ikv "p.hd" "-" })
     | _, _ => (modelObs l [], s!"fail:crash:{impl.take 160}")
 
 end Pandora.Drv.C14
